@@ -152,6 +152,20 @@ def mirrorBlocks : (d : Nat) → TreeD d → List Extent
 def flatten (rd : Nat → Option Bytes) (fuel : Nat) (root : Bytes) : Res (List Extent) :=
   (decodeTree rd fuel root).map (mirrorBlocks fuel)
 
+/-- an extent whose length field is above 32768 is an unwritten (preallocated) extent of `count-32768`
+    blocks: reserved for the file, holding no file data, reading as zeros -/
+def Extent.unwritten (e : Extent) : Bool := decide (e.count > 32768)
+
+/-- inode.extents.blocks(fs) as the callers see it. `refuse = true` (repaired): `extentLeafNode.blocks`
+    returns an error for a leaf that holds an unwritten extent; `refuse = false` (as found): the length
+    field is handed on as a plain block count. -/
+def flattenC (refuse : Bool) (rd : Nat → Option Bytes) (fuel : Nat) (root : Bytes) : Res (List Extent) :=
+  match flatten rd fuel root with
+  | .ok es => if refuse && es.any Extent.unwritten then .err else .ok es
+  | .err => .err
+  | .panic => .panic
+  | .diverge => .diverge
+
 /-- the physical block of logical block `lb` in a flat extent list: the first extent containing it -/
 def leafLookup (es : List Extent) (lb : Nat) : Option Nat :=
   match es.find? (fun e => decide (e.fileBlock ≤ lb ∧ lb < e.fileBlock + e.count)) with
